@@ -1023,7 +1023,15 @@ class Reaction:
             if residual_mass > 1e-6:
                 warn(f'atomic balance was solved with a residual mass error of {residual_mass} g / mol of reactant')
         else:
-            x = np.linalg.solve(A, b)
+            try:
+                x = np.linalg.solve(A, b)
+            except np.linalg.LinAlgError:
+                raise RuntimeError(
+                     "reaction stoichiometry is underspecified (i.e. there are "
+                     "infinite ways to balance the reaction); pass the "
+                     "`constants` argument to the `<Reaction>.correct_atomic_balance` "
+                     "method to specify which stoichiometric coefficients to hold constant"
+                ) from None
         
         stoichiometry_by_mol[chemical_index] = x.flatten()
         by_wt = self._basis == 'wt'
